@@ -197,6 +197,32 @@ static void creating_fault(Builder &b, Op &o, int nreq) {
 	o.expect_null = true;
 }
 
+// Warm-up history, run once per process before anything is counted: creates, uses and destroys every VM class and
+// cache/dataset flavour, so that any process-wide one-time initialisation inside the library (a lazily built
+// table, a static with a heap member) has happened before the ledger of a counted run starts. Such a block is
+// not acquired by any object and must not be reported as a leak of the run that happened to trigger it.
+ops::Plan warmup_plan(Context &gc) {
+	Builder b(gc, 0x77a7, "warmup");
+	b.plan.property = "warmup";
+	b.alloc_cache(0, 0, 0); b.init_cache(0, 0);
+	b.alloc_cache(1, F_JIT, 0); b.init_cache(1, 0);
+	b.alloc_dataset(0, 0, 0);
+	if (gc.small) b.init_dataset_full(0, 1); else { b.init_dataset(0, 1, 0, 64); b.init_dataset(0, 0, 64, 7); }
+	{ Op &o = b.emit(ALLOC_DATASET); o.d = 1; o.flags = F_LARGE; b.D[1].alive = true; } b.release_dataset(1);
+	for (uint32_t cf : gc.cache_flagsets) { if (cf == 0 || cf == F_JIT) continue; b.alloc_cache(2, cf, 0); if (gc.small) b.init_cache(2, 0); b.release_cache(2); }
+	int n = 0;
+	for (uint32_t f : gc.vm_flagsets_light) {
+		b.create_vm(0, f, (f & F_JIT) ? 1 : 0, -1, 0);
+		bool do_hash = gc.small || f == 0 || f == F_JIT || f == (F_JIT | F_SECURE) || f == F_HARD;
+		if (do_hash) { b.hash(0, 0); b.set_version(0, true); b.first(0, 1); b.next(0, 2); b.last(0); }
+		b.set_cache(0, (f & F_JIT) ? 0 : 1);
+		b.destroy_vm(0); ++n;
+	}
+	for (uint32_t f : gc.vm_flagsets_fast) { b.create_vm(0, f, -1, 0, 0); if (gc.small) { b.hash(0, 0); b.set_version(0, true); b.hash(0, 1); } b.destroy_vm(0); }
+	{ Op &o = b.emit(COMMIT); o.input = 0; o.key = 6; if ((int)b.plan.keys.size() <= 6 || b.plan.keys[6].len != 32) b.plan.ops.pop_back(); }
+	return b.plan;
+}
+
 static int req_count(Context &gc, int kind, uint32_t flags) {
 	if (gc.request_counts.empty()) prime_request_counts(gc);
 	auto it = gc.request_counts.find(rc_key(kind, flags));
